@@ -293,8 +293,20 @@ func tsScalar(fd protoreflect.FieldDescriptor, v any) (protoreflect.Value, bool)
 			default:
 				return protoreflect.Value{}, false
 			}
-		} else if k, s, ok := jsSpecial(v); ok && k == "$num" && s == "-0" {
-			f = math.Copysign(0, -1)
+		} else if k, s, ok := jsSpecial(v); ok && k == "$num" {
+			// a JS number that JSON cannot spell, as the node driver reports it
+			switch s {
+			case "-0":
+				f = math.Copysign(0, -1)
+			case "NaN":
+				f = math.NaN()
+			case "Infinity":
+				f = math.Inf(1)
+			case "-Infinity":
+				f = math.Inf(-1)
+			default:
+				return protoreflect.Value{}, false
+			}
 		} else {
 			return protoreflect.Value{}, false
 		}
